@@ -6,49 +6,49 @@ set_option maxHeartbeats 1000000
 namespace CircBuf
 
 /-! ### index layer -/
-theorem tie_inc_start (s : Sys) (h : Inv s.buf) :
+maybe theorem tie_inc_start (s : Sys) (h : Inv s.buf) :
     Gen.inc_start s = incStart s := by
   tie2 h [Gen.inc_start, incStart]
-theorem tie_dec_start (s : Sys) (h : Inv s.buf) :
+maybe theorem tie_dec_start (s : Sys) (h : Inv s.buf) :
     Gen.dec_start s = decStart s := by
   tie2 h [Gen.dec_start, decStart]
-theorem tie_inc_size (s : Sys) (h : Inv s.buf) :
+maybe theorem tie_inc_size (s : Sys) (h : Inv s.buf) :
     Gen.inc_size s = incSize s := by
   tie2 h [Gen.inc_size, incSize]
-theorem tie_dec_size (s : Sys) (h : Inv s.buf) :
+maybe theorem tie_dec_size (s : Sys) (h : Inv s.buf) :
     Gen.dec_size s = decSize s := by
   tie2 h [Gen.dec_size, decSize]
-theorem tie_front_slot_mut (s : Sys) (h : Inv s.buf) :
+maybe theorem tie_front_slot_mut (s : Sys) (h : Inv s.buf) :
     Gen.front_maybe_uninit_mut s = frontSlot s := by
   tie2 h [Gen.front_maybe_uninit_mut, frontSlot]
-theorem tie_front_slot (s : Sys) (h : Inv s.buf) :
+maybe theorem tie_front_slot (s : Sys) (h : Inv s.buf) :
     Gen.front_maybe_uninit s = frontSlot s := by
   tie2 h [Gen.front_maybe_uninit, frontSlot]
-theorem tie_back_slot (s : Sys) (h : Inv s.buf) :
+maybe theorem tie_back_slot (s : Sys) (h : Inv s.buf) :
     Gen.back_maybe_uninit s = backSlot s := by
   tie2 h [Gen.back_maybe_uninit, backSlot]
-theorem tie_back_slot_mut (s : Sys) (h : Inv s.buf) :
+maybe theorem tie_back_slot_mut (s : Sys) (h : Inv s.buf) :
     Gen.back_maybe_uninit_mut s = backSlot s := by
   tie2 h [Gen.back_maybe_uninit_mut, backSlot]
-theorem tie_get_slot (i : Nat) (s : Sys) (h : Inv s.buf) :
+maybe theorem tie_get_slot (i : Nat) (s : Sys) (h : Inv s.buf) :
     Gen.get_maybe_uninit i s = getSlot i s := by
   tie2 h [Gen.get_maybe_uninit, getSlot]
-theorem tie_get_slot_mut (i : Nat) (s : Sys) (h : Inv s.buf) :
+maybe theorem tie_get_slot_mut (i : Nat) (s : Sys) (h : Inv s.buf) :
     Gen.get_maybe_uninit_mut i s = getSlot i s := by
   tie2 h [Gen.get_maybe_uninit_mut, getSlot]
-theorem tie_slices_uninit_mut (s : Sys) (h : Inv s.buf) :
+maybe theorem tie_slices_uninit_mut (s : Sys) (h : Inv s.buf) :
     Gen.slices_uninit_mut s = slicesUninitMut s := by
   tie2 h [Gen.slices_uninit_mut, slicesUninitMut]
-theorem tie_as_slices (s : Sys) (h : Inv s.buf) :
+maybe theorem tie_as_slices (s : Sys) (h : Inv s.buf) :
     Gen.as_slices s = asSlices s := by
   tie2 h [Gen.as_slices, asSlices, asSlicesOf, dassertE]
-theorem tie_as_mut_slices (s : Sys) (h : Inv s.buf) :
+maybe theorem tie_as_mut_slices (s : Sys) (h : Inv s.buf) :
     Gen.as_mut_slices s = asSlices s := by
   tie2 h [Gen.as_mut_slices, asSlices, asSlicesOf, dassertE]
 
 /-! ### queries -/
-theorem tie_len (s : Sys) : Gen.len s = (.ok s.buf.size, s) := rfl
-theorem tie_is_empty (s : Sys) : Gen.is_empty s = (.ok (decide (s.buf.size = 0)), s) := rfl
-theorem tie_is_full (s : Sys) : Gen.is_full s = (.ok (decide (s.buf.size = s.buf.cap)), s) := rfl
+maybe theorem tie_len (s : Sys) : Gen.len s = (.ok s.buf.size, s) := rfl
+maybe theorem tie_is_empty (s : Sys) : Gen.is_empty s = (.ok (decide (s.buf.size = 0)), s) := rfl
+maybe theorem tie_is_full (s : Sys) : Gen.is_full s = (.ok (decide (s.buf.size = s.buf.cap)), s) := rfl
 
 end CircBuf
